@@ -109,6 +109,9 @@ func vShrink(p *vProp, ops []string, key string) []string {
 			}
 			budget--
 			r := vSafeExec(p, cand)
+			if r.key == "hang" {
+				return cur // a candidate hung: the process state is compromised, keep what we have
+			}
 			if r.specFail != "" && r.key == key {
 				cur = cand
 				if n > 2 {
@@ -283,6 +286,13 @@ func TestVerifMain(t *testing.T) {
 				s = append(append([]string{}, s[:40]...), fmt.Sprintf("... (%d more)", len(s)-40))
 			}
 			samples = append(samples, s)
+		}
+		if res.key == "hang" {
+			// a call of the real code did not return: the goroutine (and whatever scheduler / lock state it holds) is
+			// stuck for good, later cases would only hang on it. Report this case as it is and stop the run.
+			seenKeys[res.key]++
+			failures = append(failures, vFailure{Key: "hang", What: fmt.Sprintf("the case did not finish within %d s: a call into the library never returned (no shrinking: the process state is not reusable)", vEnvInt("VERIF_CASE_TIMEOUT_S", 60)), Ops: c.ops, Out: res.out, Origin: c.origin, OrigSize: len(c.ops)})
+			break
 		}
 		if res.specFail != "" {
 			seenKeys[res.key]++
